@@ -908,7 +908,7 @@ class MirJob:
                     if o.get("needs_native"):
                         res["replay_mismatch"] = "over-approximate alarm %s has no native replay: not reported as a violation" % o["id"]
                     continue
-                rep = native_cargo_test(ctx["src"], ctx["scratch"], nt["files"], nt["test"], ctx["logdir"], "%s_%d" % (self.name, i))
+                rep = native_cargo_test(ctx["src"], ctx["scratch"], nt["files"], nt["test"], ctx["logdir"], "%s_%d" % (self.name, i), features=nt.get("features"))
                 o["native_replay"] = rep
                 if rep["reproduced"]:
                     n_rep += 1
